@@ -33,6 +33,7 @@ class Spec:
             if m != 'READ': return 'err'
             lines = self.disk[f]
             v = lines[h['pos']] if h['pos'] < len(lines) else ''
+            if v.startswith('r'): v = rec_text(v)          # a record read back as a text line shows its on-disk form
             h['pos'] = min(h['pos'] + 1, len(lines) + 1)
             return ('val', v)
         if k == 'EOF':
